@@ -11,6 +11,11 @@ new <gridDep 0|1> <wlDep 0|1> <maxN>      start a freshly constructed element
 req <i|-> <o|-> <w|-> <gi|-> <go|->       get_instance_data(i, o, w); gi = id of
                                           get_input_grid(o, w) and go = id of get_output_grid(i', w)
                                           as observed on a *fresh* element ('-' = None / not needed)
+reqc <i|-> <o|-> <w|-> <gi|-> <go|-> <t>  a propagation through an element whose instances own a memo cell (FourierFilter of a
+                                          Fresnel / angular-spectrum instance) with a field of dtype tag <t>: `stepC` with
+                                          `memoContent`; answers as `req` plus `slot=` (dtype the cell of the instance handed
+                                          out now holds), `rebuilt=` (1 = this propagation recomputed it) and `res=` (the kernel
+                                          used: instance key / version / dtype)
 clear                                     clear_cache()
 set                                       a public setter (version bump + clear_cache())
 memo reset | memo get <tag> <drop 0|1>    memo cell (matrices_dtype, ChirpZTransform._current_dtype), compute = identity on tags
@@ -30,11 +35,16 @@ Responses: `ok <how> id=<n> key=<i>,<o>,<w> ver=<v> num=<n> cache=<i>,<o>,<w>:<i
 namespace HcipyVerif.Driver.C05
 open HcipyVerif.Proto HcipyVerif.Cache
 
+/-- The content `reqc` runs: a memo cell keyed on the dtype tag; the kernel is (instance key, version, dtype). -/
+def cellContent : Content (Key × Nat × Memo Nat (Key × Nat × Nat)) Nat (Key × Nat × Nat) :=
+  memoContent fun k v t => (k, v, t)
+
 structure St where
   gridDep : Bool := true
   wlDep : Bool := true
   maxN : Nat := 11
   st : Cache.St := Cache.St.init 0
+  heap : Inst → Key × Nat × Memo Nat (Key × Nat × Nat) := cellContent.heap0
   memo : Memo Nat Nat := ⟨none⟩
   ftf : Memo Nat Nat := ⟨none⟩
   fia : Memo (Nat × Nat × List Nat) Nat := ⟨none⟩
@@ -79,9 +89,27 @@ def showTag3 : Option (Nat × Nat × List Nat) → String
 def showState (s : Cache.St) : String := s!"ver={s.ver} num={s.num} cache={showCache s.cache}"
 
 def step (st : St) : List String → St × String
+  | ["reqc", i, o, w, gi, go, t] =>
+    match parseOptNat? i, parseOptNat? o, parseOptNat? w, parseOptNat? gi, parseOptNat? go, parseNat? t with
+    | some i, some o, some w, some gi, some go, some t =>
+      let e : Elem := { gridDep := st.gridDep, wlDep := st.wlDep, maxN := st.maxN,
+                        getIn := fun _ _ _ => gi, getOut := fun _ _ _ => go }
+      let r := stepC e cellContent st.st st.heap (.req i o w t)
+      match r.2.2, getInstanceDataHow e st.st i o w with
+      | .result res, .ok (_, v, how) =>
+        let before := (st.heap v).2.2.slot.map (·.1)
+        let after := (r.2.1 v).2.2.slot.map (·.1)
+        ({ st with st := r.1, heap := r.2.1 },
+          s!"ok {showHow how} id={v.id} key={showKey v.key} ver={v.ver} num={r.1.num} cache={showCache r.1.cache} " ++
+          s!"slot={showOpt after} rebuilt={if before = some t then 0 else 1} res={showKey res.1}/{res.2.1}/{res.2.2}")
+      | .error .value, _ => (st, "err value")
+      | .error .key, _ => (st, "err key")
+      | _, _ => (st, "err inconsistent")
+    | _, _, _, _, _, _ => (st, "bad-op")
   | ["new", g, w, n] =>
     match parseBool? g, parseBool? w, parseNat? n with
-    | some g, some w, some n => ({ st with gridDep := g, wlDep := w, maxN := n, st := Cache.St.init 0 }, "ok")
+    | some g, some w, some n =>
+      ({ st with gridDep := g, wlDep := w, maxN := n, st := Cache.St.init 0, heap := cellContent.heap0 }, "ok")
     | _, _, _ => (st, "bad-op")
   | ["req", i, o, w, gi, go] =>
     match parseOptNat? i, parseOptNat? o, parseOptNat? w, parseOptNat? gi, parseOptNat? go with
